@@ -1,7 +1,7 @@
 (* C06 -- Properties and events are delivered on the span they were attached to.
    Only pinned statements, closed by [exact lemma], with Print Assumptions. *)
 From Coq Require Import List NArith Bool.
-From FT Require Import Model.Base Model.Records Proofs.RecordsProofs.
+From FT Require Import Model.Base Model.Records Proofs.RecordsProofs Proofs.AttachProofs.
 Import ListNotations.
 Open Scope N_scope.
 
@@ -48,6 +48,38 @@ Theorem C06_mount_preserves_core :
   forall recs d, map core (fst (mount_danglings recs d)) = map core recs.
 Proof. exact mount_core. Qed.
 
+(* THE WHOLE REPORT.  For records with pairwise distinct span ids (distinct spans have distinct
+   ids: C02; the exception is K2), mounting gives every record exactly its own bucket and no
+   record anything else; the buckets of the ids present are consumed, every other bucket stays
+   (for a span that finishes later) *)
+Theorem C06_every_record_takes_exactly_its_bucket :
+  forall recs d,
+    NoDup (map rc_id recs) ->
+    mount_danglings recs d = (map (with_bucket d) recs, remove_ids (map rc_id recs) d).
+Proof. exact mount_spec. Qed.
+
+Theorem C06_record_contents :
+  forall recs d r,
+    NoDup (map rc_id recs) -> In r recs ->
+    exists r', In r' (fst (mount_danglings recs d)) /\ core r' = core r /\
+      rc_props r' = rc_props r ++ add_props_of (match alookup (rc_id r) d with Some i => i | None => [] end) /\
+      rc_events r' = rc_events r ++ add_events_of (match alookup (rc_id r) d with Some i => i | None => [] end).
+Proof. exact mount_record_contents. Qed.
+
+(* one local-span set: every span's record carries its own properties, then what was parked for
+   it before, then the set's own local-parent properties / events recorded while it was the
+   innermost open span, in recording order -- and nothing addressed to another span *)
+Theorem C06_local_set_attachments :
+  forall conv rs end_time trace parent d,
+    NoDup (map r_id (filter is_kspan rs)) ->
+    fst (postprocess conv [mkColl (SLocal rs end_time) trace parent] d) =
+    map (fun sp =>
+           let items := match alookup (r_id sp) d with Some v => v | None => [] end ++
+                        mine (r_id sp) (flat_map (dang_of conv parent) rs) in
+           fold_left apply_ditem items (base_record conv trace parent end_time sp))
+        (filter is_kspan rs).
+Proof. exact local_set_attachments. Qed.
+
 (* K2 (known finding): two records with one span id in one trace -- a multi-parent span whose
    parents share the trace -- the first copy takes the whole bucket, the second gets nothing *)
 Example C06_same_trace_copies_refuted :
@@ -63,3 +95,6 @@ Print Assumptions C06_other_buckets_untouched.
 Print Assumptions C06_span_takes_bucket.
 Print Assumptions C06_no_bucket_no_change.
 Print Assumptions C06_mount_preserves_core.
+Print Assumptions C06_every_record_takes_exactly_its_bucket.
+Print Assumptions C06_record_contents.
+Print Assumptions C06_local_set_attachments.
